@@ -132,7 +132,7 @@ def securitySpecLine (v : View) : String :=
       if Spec.CertWellFormed v.b.size va size ∧ Spec.SingleCert v.b va size then
         s!"spec=type={Spec.certType v.b va},data={ref (Spec.certBytes v.b va)} hyp=1"
       else "hyp=0"
-    | none => "hyp=0"
+    | none => "spec=!Null hyp=1"                 -- no data-directory entry 4: no certificate table
 
 def securityDump (v : View) : String :=
   let spec := s!" ## {securitySpecLine v}"
